@@ -295,6 +295,26 @@ func generate(cfg *hx.Config) []hx.Case {
 			}
 		}
 	}
+	// followers that never complete: the answer to an exchange must not be held
+	// back by what is already in the proxy's read buffer behind it
+	{
+		k := 0
+		for _, kind := range []string{"g", "p", "h", "s"} {
+			for _, oc := range []string{"ref", "tmo", "gar", "cut", "ok"} {
+				for pre := 0; pre < 2; pre++ {
+					last := &exch{ID: 10, Meth: "GP"[k%2], Outcome: oc, K: 3, Status: 200, Framing: []string{"c", "k"}[k%2], BodyLen: 6, Sizes: []int{4}}
+					var exs []*exch
+					if pre == 1 {
+						exs = append(exs, okEx(40, 'G', "c", 3, nil))
+					}
+					n++
+					cases = append(cases, caseOf(fmt.Sprintf("lead%d", n), "lead"+kind, append(exs, last)))
+					cfg.Count("kind=follower-never-completes")
+					k++
+				}
+			}
+		}
+	}
 	// slow failures on the proxy with the short timeout: the connection lives
 	// longer than SetTimeout although every exchange stays far below it
 	ns := 8
@@ -618,6 +638,9 @@ func corpus() []hx.Case {
 		add("connect-with-body-"+q+"-refused-then-requests", "seq", &exch{ID: 18, Meth: 'C', Outcome: "ref", Status: 200, Framing: "c", BodyLen: 4, ReqBody: q}, okEx(19, 'G', "c", 5, nil), okEx(20, 'P', "c", 5, nil))
 	}
 	add("post-with-request-looking-body-refused-then-requests", "pipe", &exch{ID: 21, Meth: 'P', Outcome: "ref", Status: 200, Framing: "c", BodyLen: 4, ReqBody: "j"}, okEx(19, 'G', "c", 5, nil), okEx(20, 'P', "c", 5, nil))
+	for _, kind := range []string{"g", "h", "s"} {
+		add("refused-then-follower-"+kind+"-in-the-same-segment", "lead"+kind, &exch{ID: 22, Meth: 'G', Outcome: "ref", Status: 200, Framing: "c", BodyLen: 4})
+	}
 	var slow []*exch
 	for i := 0; i < 5; i++ {
 		slow = append(slow, &exch{ID: 20 + i, Meth: 'G', Outcome: []string{"ref", "tmo", "ref", "dns", "ref"}[i], Status: 200, Framing: "c", BodyLen: 4, Delay: 400})
